@@ -38,8 +38,9 @@ var c04Generic = []string{"ReadInterface", "Skip", "ReadRawBytes", "ReadMap+Skip
 
 // the watchdog turns a hang into a violation (reported with the input being processed)
 var (
-	c04Current atomic.Value // c04Case
-	c04Ticks   atomic.Int64
+	c04Current  atomic.Value // c04Case
+	c04Ticks    atomic.Int64
+	c04InFlight atomic.Bool // a decode call is running (an idle process - e.g. the coordinator of a fuzz campaign - is not a hang)
 )
 
 func startWatchdog(rec *stats.Recorder) func() {
@@ -54,7 +55,7 @@ func startWatchdog(rec *stats.Recorder) func() {
 			case <-time.After(5 * time.Second):
 			}
 			cur := c04Ticks.Load()
-			if cur == last {
+			if cur == last && c04InFlight.Load() {
 				stuck++
 			} else {
 				stuck = 0
@@ -101,7 +102,8 @@ func genericOp(r restlicodec.Reader, op string) {
 // decodeHostile feeds input to one entry point / shape. Returns a violation message or "".
 func decodeHostile(c c04Case, input string) (msg string) {
 	c04Current.Store(c)
-	defer c04Ticks.Add(1)
+	c04InFlight.Store(true)
+	defer func() { c04InFlight.Store(false); c04Ticks.Add(1) }()
 	run := func(r restlicodec.Reader) {
 		if strings.Contains(c.Shape, "+") || c.Shape == "ReadInterface" || c.Shape == "Skip" || c.Shape == "ReadRawBytes" || c.Shape == "RawRecord" {
 			genericOp(r, c.Shape)
